@@ -21,13 +21,13 @@ def adjustRes (adj : Adjust) (cf : CFormat) (now : Now) (c : Civil) : FRes :=
   else .ok c
 
 theorem formatParse_of_find {adj : Adjust} {cf : CFormat} {now : Now} {txt : Bytes} {r : Rx} {c : Civil}
-    (hr : cf.rx = some r) (hf : find r txt = some txt) (hp : parseLayout cf.layout txt = .ok c) :
+    (hr : cf.rx = some r) (hf : findG cf.guard r txt = some txt) (hp : parseLayout cf.layout txt = .ok c) :
     formatParse adj cf now txt = adjustRes adj cf now c := by
   simp only [formatParse, hr, hf, hp, adjustRes]
   split <;> rfl
 
 theorem formatParse_err_of_find {adj : Adjust} {cf : CFormat} {now : Now} {txt : Bytes} {r : Rx}
-    (hr : cf.rx = some r) (hf : find r txt = none) : formatParse adj cf now txt = .err := by
+    (hr : cf.rx = some r) (hf : findG cf.guard r txt = none) : formatParse adj cf now txt = .err := by
   simp only [formatParse, hr, hf]
 
 /-- the claim of format `k` as `parser.Parse` reports it -/
@@ -67,7 +67,7 @@ def cleanIdx (fmts : List CFormat) (k : Nat) : Bool :=
       | some cj =>
         match cj.rx with
         | none => false
-        | some r => (symLayout ck.layout).all (fun sh => !findS r sh))
+        | some r => (symLayout ck.layout).all (fun sh => !findSG cj.guard r false sh))
 
 /-- format `k`'s own expression returns the whole of every text of the format, and its layout is well formed -/
 def ownOK (cf : CFormat) : Bool :=
@@ -75,14 +75,15 @@ def ownOK (cf : CFormat) : Bool :=
 
 /-- **own expression**: the format's expression, searched unanchored in the format's own text, returns the whole text -/
 theorem own_regexp_whole {cf : CFormat} (hown : ownOK cf = true) {i : XInst} (hi : ValidX i) {txt : Bytes}
-    (ht : renderLayout cf.layout i = some txt) : ∃ r, cf.rx = some r ∧ find r txt = some txt := by
+    (ht : renderLayout cf.layout i = some txt) : ∃ r, cf.rx = some r ∧ find r txt = some txt ∧ findG cf.guard r txt = some txt := by
   simp only [ownOK, Bool.and_eq_true] at hown
   obtain ⟨sh, hsh, hs⟩ := renderLayout_shape cf.layout i hi txt ht
   cases hr : cf.rx with
   | none => rw [hr] at hown; simp at hown
   | some r =>
     rw [hr] at hown
-    exact ⟨r, rfl, find_whole_of_ownMatchD hs (List.all_eq_true.mp hown.2 sh hsh)⟩
+    have hm := matchAt_whole_of_ownMatchD hs (List.all_eq_true.mp hown.2 sh hsh)
+    exact ⟨r, rfl, find_whole_of_ownMatchD hs (List.all_eq_true.mp hown.2 sh hsh), findG_of_matchAt hm⟩
 
 /-- **first match**: for a clean index the list's answer for the text of any valid instant is format `k`'s own claim of
 exactly the fields the layout carries -/
@@ -94,7 +95,7 @@ theorem first_match_clean {adj : Adjust} {now : Now} {fmts : List CFormat} {k : 
     simp only [ownOK, Bool.and_eq_true] at hown; exact hown.1
   obtain ⟨txt, ht, hp⟩ := render_parse_all ck.layout hwf i hi
   obtain ⟨c, hc⟩ := projectX_ok ck.layout i hi
-  obtain ⟨r, hr, hf⟩ := own_regexp_whole hown hi ht
+  obtain ⟨r, hr, _, hf⟩ := own_regexp_whole hown hi ht
   obtain ⟨sh, hsh, hs⟩ := renderLayout_shape ck.layout i hi txt ht
   refine ⟨txt, c, ht, hc, ?_⟩
   have hfp : formatParse adj ck now txt = adjustRes adj ck now c := formatParse_of_find hr hf (by rw [hp, hc])
@@ -119,10 +120,10 @@ theorem first_match_clean {adj : Adjust} {now : Now} {fmts : List CFormat} {k : 
     | none => rw [hrj] at this; simp at this
     | some rj =>
       rw [hrj] at this
-      have hns : findS rj sh = false := by
+      have hns : findSG cj.guard rj false sh = false := by
         have := List.all_eq_true.mp this sh hsh
         simpa using this
-      exact formatParse_err_of_find hrj (find_none_of_findS rj txt sh hs hns)
+      exact formatParse_err_of_find hrj (findFrom_none_of_findSG cj.guard rj txt sh false false hs (fun h => h) hns)
   have := parseFrom_first (adj := adj) (now := now) (buf := txt) fmts 0 k ck hk hearlier hne
   simp only [parseFirst, this, Nat.zero_add, hfp]
 
